@@ -35,6 +35,8 @@ func runC15(c *core.Ctx, r *core.Reporter) {
 	c15args(c, r)
 	c15dest(c, r)
 	c15force(c, r)
+	c15escape(c, r)
+	c15params(c, r)
 }
 
 // c15force: a printing function that forces a printer control (princ and ~A force escape off, prin1 and ~S force
@@ -513,4 +515,94 @@ func c15dest(c *core.Ctx, r *core.Reporter) {
 	walk(call, 0)
 	ms := keys(makers)
 	r.Decide(len(ms) == 1, rule, "pkg/cl:format|renderer", c.Pos(call.Pos()), fmt.Sprintf("functions reachable from Format.Call that build a format engine: %v", ms))
+}
+
+// c15escape: ~^ ends the enclosing ~{ ~} or ~< ~> only "if there are no more arguments" (with no prefix
+// parameters). Structurally: wherever the directive interpreter sets control.stop, the store is
+// control-dependent on a test that reads the argument position or the argument list. On the pinned tree the
+// dispatch arm for '^' sets stop unconditionally: (format nil "~{~a~^, ~}" '(1 2 3)) => "1, ".
+func c15escape(c *core.Ctx, r *core.Reporter) {
+	const rule = "C15.escape"
+	r.Rule(rule, "every store of true into control.stop (the ~^ escape) is control-dependent on a test of the remaining arguments (control.argPos / control.args)", 1)
+	an := lenflow.New(c)
+	for _, fn := range c.ModuleFuncs() {
+		if fn.Pkg == nil || core.RelPkg(fn.Pkg.Pkg.Path()) != "pkg/cl" || fn.Signature.Recv() == nil {
+			continue
+		}
+		for _, b := range fn.Blocks {
+			for _, in := range b.Instrs {
+				st, ok := in.(*ssa.Store)
+				if !ok {
+					continue
+				}
+				fa, ok := st.Addr.(*ssa.FieldAddr)
+				if !ok || fieldName(fa) != "stop" {
+					continue
+				}
+				if pt, ok := fa.X.Type().Underlying().(*types.Pointer); !ok || !strings.HasSuffix(pt.Elem().String(), "cl.control") {
+					continue
+				}
+				if cst, ok := st.Val.(*ssa.Const); !ok || cst.Value == nil || cst.Value.String() != "true" {
+					continue
+				}
+				guarded := core.Separates(fn, b, an.NoReturn, func(ifi *ssa.If, branch bool) bool {
+					return condReadsFieldDeep(ifi.Cond, "argPos", 0) || condReadsFieldDeep(ifi.Cond, "args", 0)
+				})
+				r.Decide(guarded, rule, core.SSAName(fn)+"|stop set", c.Pos(st.Pos()), fmt.Sprintf("the escape is taken only under a test of the remaining arguments: %v", guarded))
+			}
+		}
+	}
+}
+
+// condReadsFieldDeep: like condReadsAnyField, also through len(...) and conversions.
+func condReadsFieldDeep(v ssa.Value, field string, depth int) bool {
+	if depth > 5 || v == nil {
+		return false
+	}
+	switch x := v.(type) {
+	case *ssa.BinOp:
+		return condReadsFieldDeep(x.X, field, depth+1) || condReadsFieldDeep(x.Y, field, depth+1)
+	case *ssa.UnOp:
+		if fa, ok := x.X.(*ssa.FieldAddr); ok && fieldName(fa) == field {
+			return true
+		}
+		return condReadsFieldDeep(x.X, field, depth+1)
+	case *ssa.Call:
+		if bi, ok := x.Call.Value.(*ssa.Builtin); ok && bi.Name() == "len" {
+			return condReadsFieldDeep(x.Call.Args[0], field, depth+1)
+		}
+	case *ssa.Convert:
+		return condReadsFieldDeep(x.X, field, depth+1)
+	}
+	return false
+}
+
+// c15params: the directives below take prefix parameters in the language definition. A directive function that
+// never reads its params argument renders the same text whatever parameters were written: before 29eb5d4 ~R
+// ignored them and (format nil "~16r" 255) gave "two hundred fifty five".
+func c15params(c *core.Ctx, r *core.Reporter) {
+	const rule = "C15.params"
+	r.Rule(rule, "every directive function of a directive that takes prefix parameters reads its params argument", 15)
+	takes := map[string]bool{"dirA": true, "dirS": true, "dirD": true, "dirB": true, "dirO": true, "dirX": true, "dirR": true,
+		"dirF": true, "dirE": true, "dirG": true, "dirMoney": true, "dirPercent": true, "dirAmp": true, "dirPage": true,
+		"dirTilde": true, "dirT": true, "dirMove": true, "dirCond": true, "dirIter": true, "dirJustify": true, "dirInt": true}
+	for _, fn := range c.ModuleFuncs() {
+		if fn.Pkg == nil || core.RelPkg(fn.Pkg.Pkg.Path()) != "pkg/cl" || fn.Signature.Recv() == nil || !takes[fn.Name()] {
+			continue
+		}
+		if pt, ok := fn.Signature.Recv().Type().Underlying().(*types.Pointer); !ok || !strings.HasSuffix(pt.Elem().String(), "cl.control") {
+			continue
+		}
+		var params *ssa.Parameter
+		for _, p := range fn.Params {
+			if p.Name() == "params" {
+				params = p
+			}
+		}
+		if params == nil {
+			continue
+		}
+		used := params.Referrers() != nil && len(*params.Referrers()) > 0
+		r.Decide(used, rule, core.SSAName(fn), c.Pos(fn.Pos()), fmt.Sprintf("the params argument is read: %v", used))
+	}
 }
